@@ -81,12 +81,22 @@ Proof. exact (conj compact_roundtrip (conj blocks_roundtrip flat_roundtrip)). Qe
    saving it again gives the same saved fields.  This needs: the saved flag sorted = sort or (qnumber == 0) as `sort`
    argument gives the same pipe; for single-block legs (the fast path of __init__, which sets sorted = bunched = True)
    the pipe does not depend on sort/bunch.
-   Model/PipeReinit.v is new and NOT executed against the code: attr_sorted/attr_bunched (which flags __init__ caches)
-   and the argument order of from_hdf5 are hand-written from charges.py; the tie to the code is that pipe_load runs
-   the C06 model pipe_init.  That from_hdf5 reads exactly legs, qconj, sorted, bunched and that save_hdf5 writes them
-   (formats blocks/compact) is the LegPipe entry of the regenerated hdf5_table of T17_state_orders; the ORDER in which
-   from_hdf5 passes the two flags is not in that table: it is covered by the harness only (deep comparison of every
-   loaded LegPipe with the saved one), T17_legpipe_reinit_swap_differs shows on the model that the order matters. *)
+   Tie to the code: Model/PipeReinit.v is EXECUTED against the implementation by the correspondence stream `pipe-reinit`
+   of harness/c17.py (checker Model/PipeReinitCheck.v:check_pipe_reinit, vm_compute on every case): random LegPipes
+   (1-3 incoming legs of 1-3 blocks, qconj +-1, no charge / U(1) / Z_N / two charges, single-block fast path included)
+   x all four (sort, bunch) x LegCharge formats blocks/compact are built with the real LegPipe, written with Hdf5Saver
+   into an h5py file which is read back RAW - the group attributes `sorted`, `bunched`, `qconj`, the chinfo, the tuple
+   `legs` and the slices/charges of the LegCharge part must equal pipe_save a (and po_slices/po_charges of
+   pipe_construct a) -, the pipe rebuilt by LegPipe.from_hdf5 must equal pipe_load of the file content and the
+   unpickled pipe must equal pipe_load (pipe_save a): charges, slices, q_map, q_map_slices, the private _perm and
+   _strides (observations po_perm / po_strides defined in PipeReinitCheck.v from the block tuples in processing order),
+   sorted, bunched, legs, qconj; the constructed pipe itself must equal pipe_construct a (attr_sorted / attr_bunched).
+   So which flags __init__ caches, which of them save_hdf5 writes and the ORDER in which from_hdf5 passes them are
+   checked against the code on every run (seeded slips - flags swapped in from_hdf5, `sorted` written wrongly,
+   defaults instead of the saved flags, sorted = sort without `or qnumber == 0` - are reported by the stream);
+   T17_legpipe_reinit_swap_differs shows on the model that the order matters.  That from_hdf5 reads exactly legs,
+   qconj, sorted, bunched and that save_hdf5 writes them (formats blocks/compact) is in addition the LegPipe entry of
+   the regenerated hdf5_table of T17_state_orders.  Format flat is outside (recorded defect F17.1: the loader fails). *)
 Theorem T17_legpipe_reinit : forall a : pipe_args,
   let o := pipe_construct a in
   let o' := pipe_load (pipe_save a) in
